@@ -85,6 +85,17 @@ def main(tier, seed):
         dist = {}
         for r in range(reps):
             lines = J.jobs(rng, njobs)
+            # QR contents at every length (hits every capacity boundary of the small versions: the
+            # IterateBytes / splitToBlocks hand-over is exact only if the bit stream has exactly
+            # 8*totalDataBytes bits) and the largest symbols
+            for L in range(1, 130, 1 if r == 0 else 3):
+                lines.append("enc qr %d 1 %s" % (rng.randrange(4), J.hx("".join(rng.choice("0123456789") for _ in range(L)))))
+                if L < 90:
+                    lines.append("enc qr %d 2 %s" % (rng.randrange(4), J.hx("".join(rng.choice(J.ALNUM) for _ in range(L)))))
+            lines.append("enc qr 0 1 %s" % J.hx("7" * 7089))
+            lines.append("enc qr 0 2 %s" % J.hx("A" * 4296))
+            lines.append("enc az 33 0 %s" % J.hx("A" * 1600))
+            rng.shuffle(lines)
             # sequential reference: each job in its own fresh process group of 40 (cold caches), no race build
             expected = run_lines(impl, lines, shards=NCPU)
             for l in lines:
